@@ -125,6 +125,13 @@ func judgeVerify(class string, pub, alpha, pi []byte, o *fw.Obs) {
 	}
 	o.Count(fmt.Sprintf("verify model=%s impl=%s", yn(mok, "accept", "reject"), yn(ok, "accept", "reject")))
 	o.Count(fmt.Sprintf("%s model=%s", class, yn(mok, "accept", "reject")))
+	if mok && !ok && class != "honest" {
+		// the statement demands acceptance of what Prove returns (class honest and the prove class);
+		// a verifier that is stricter than RFC 9381 on other valid proofs (e.g. Gamma with a torsion
+		// component) still satisfies it
+		o.Count("valid-by-RFC proof not produced by Prove refused (allowed by the statement)")
+		return
+	}
 	if mok != ok {
 		o.Fail("verdict", "Verify = %v, RFC 9381 model says %v (class %s)", ok, mok, class)
 		return
@@ -162,6 +169,12 @@ func judgeDecode(x []byte, o *fw.Obs) {
 	}
 	ok := err == nil
 	o.Count(fmt.Sprintf("decode model=%s impl=%s", yn(mok, "ok", "fail"), yn(ok, "ok", "fail")))
+	if mok && (!ok || err2 != nil || err3 != nil) {
+		// "decoding succeeds only for inputs that re-encode to themselves" is one-sided: a decoder that
+		// refuses some canonical encodings (that Prove never produces) still satisfies the statement
+		o.Count("canonical encoding refused by the decoder (allowed by the statement)")
+		return
+	}
 	if ok != mok || (err2 == nil) != mok || (err3 == nil) != mok {
 		o.Fail("decode", "decoding %x: model %v, SetBytes err=%v, UnmarshalBinary err=%v, ProofToHash err=%v", x, mok, err, err2, err3)
 		return
